@@ -957,8 +957,8 @@ static const yytype_int16 yyrline[] =
     2264,  2275,  2318,  2334,  2354,  2364,  2363,  2372,  2386,  2387,
     2392,  2402,  2417,  2416,  2429,  2430,  2435,  2468,  2493,  2549,
     2556,  2562,  2568,  2578,  2582,  2590,  2602,  2616,  2623,  2630,
-    2655,  2667,  2679,  2691,  2706,  2718,  2733,  2776,  2797,  2832,
-    2867,  2901,  2932,  2955,  2965,  2975,  2985,  2995,  3015,  3035
+    2655,  2667,  2679,  2691,  2706,  2718,  2733,  2778,  2799,  2834,
+    2869,  2903,  2934,  2957,  2967,  2977,  2987,  2997,  3017,  3037
 };
 #endif
 
@@ -4917,7 +4917,9 @@ yyreduce:
           {
             case OBJECT_TYPE_INTEGER:
               (yyval.expression).type = EXPRESSION_TYPE_INTEGER;
-              (yyval.expression).value.integer = (yyvsp[0].expression).value.object->value.i;
+              // The value of an object (external variable or module field)
+              // is known only at scan time, it is not a compile-time constant.
+              (yyval.expression).value.integer = YR_UNDEFINED;
               break;
             case OBJECT_TYPE_FLOAT:
               (yyval.expression).type = EXPRESSION_TYPE_FLOAT;
@@ -4947,11 +4949,11 @@ yyreduce:
 
         fail_if_error(result);
       }
-#line 4951 "libyara/grammar.c"
+#line 4953 "libyara/grammar.c"
     break;
 
   case 157: /* primary_expression: '-' primary_expression  */
-#line 2777 "libyara/grammar.y"
+#line 2779 "libyara/grammar.y"
       {
         int result = ERROR_SUCCESS;
 
@@ -4972,11 +4974,11 @@ yyreduce:
 
         fail_if_error(result);
       }
-#line 4976 "libyara/grammar.c"
+#line 4978 "libyara/grammar.c"
     break;
 
   case 158: /* primary_expression: primary_expression '+' primary_expression  */
-#line 2798 "libyara/grammar.y"
+#line 2800 "libyara/grammar.y"
       {
         int result = yr_parser_reduce_operation(
             yyscanner, "+", (yyvsp[-2].expression), (yyvsp[0].expression));
@@ -5011,11 +5013,11 @@ yyreduce:
 
         fail_if_error(result);
       }
-#line 5015 "libyara/grammar.c"
+#line 5017 "libyara/grammar.c"
     break;
 
   case 159: /* primary_expression: primary_expression '-' primary_expression  */
-#line 2833 "libyara/grammar.y"
+#line 2835 "libyara/grammar.y"
       {
         int result = yr_parser_reduce_operation(
             yyscanner, "-", (yyvsp[-2].expression), (yyvsp[0].expression));
@@ -5050,11 +5052,11 @@ yyreduce:
 
         fail_if_error(result);
       }
-#line 5054 "libyara/grammar.c"
+#line 5056 "libyara/grammar.c"
     break;
 
   case 160: /* primary_expression: primary_expression '*' primary_expression  */
-#line 2868 "libyara/grammar.y"
+#line 2870 "libyara/grammar.y"
       {
         int result = yr_parser_reduce_operation(
             yyscanner, "*", (yyvsp[-2].expression), (yyvsp[0].expression));
@@ -5088,11 +5090,11 @@ yyreduce:
 
         fail_if_error(result);
       }
-#line 5092 "libyara/grammar.c"
+#line 5094 "libyara/grammar.c"
     break;
 
   case 161: /* primary_expression: primary_expression '\\' primary_expression  */
-#line 2902 "libyara/grammar.y"
+#line 2904 "libyara/grammar.y"
       {
         int result = yr_parser_reduce_operation(
             yyscanner, "\\", (yyvsp[-2].expression), (yyvsp[0].expression));
@@ -5123,11 +5125,11 @@ yyreduce:
 
         fail_if_error(result);
       }
-#line 5127 "libyara/grammar.c"
+#line 5129 "libyara/grammar.c"
     break;
 
   case 162: /* primary_expression: primary_expression '%' primary_expression  */
-#line 2933 "libyara/grammar.y"
+#line 2935 "libyara/grammar.y"
       {
         check_type((yyvsp[-2].expression), EXPRESSION_TYPE_INTEGER, "%");
         check_type((yyvsp[0].expression), EXPRESSION_TYPE_INTEGER, "%");
@@ -5150,11 +5152,11 @@ yyreduce:
           fail_if_error(ERROR_DIVISION_BY_ZERO);
         }
       }
-#line 5154 "libyara/grammar.c"
+#line 5156 "libyara/grammar.c"
     break;
 
   case 163: /* primary_expression: primary_expression '^' primary_expression  */
-#line 2956 "libyara/grammar.y"
+#line 2958 "libyara/grammar.y"
       {
         check_type((yyvsp[-2].expression), EXPRESSION_TYPE_INTEGER, "^");
         check_type((yyvsp[0].expression), EXPRESSION_TYPE_INTEGER, "^");
@@ -5164,11 +5166,11 @@ yyreduce:
         (yyval.expression).type = EXPRESSION_TYPE_INTEGER;
         (yyval.expression).value.integer = OPERATION(^, (yyvsp[-2].expression).value.integer, (yyvsp[0].expression).value.integer);
       }
-#line 5168 "libyara/grammar.c"
+#line 5170 "libyara/grammar.c"
     break;
 
   case 164: /* primary_expression: primary_expression '&' primary_expression  */
-#line 2966 "libyara/grammar.y"
+#line 2968 "libyara/grammar.y"
       {
         check_type((yyvsp[-2].expression), EXPRESSION_TYPE_INTEGER, "^");
         check_type((yyvsp[0].expression), EXPRESSION_TYPE_INTEGER, "^");
@@ -5178,11 +5180,11 @@ yyreduce:
         (yyval.expression).type = EXPRESSION_TYPE_INTEGER;
         (yyval.expression).value.integer = OPERATION(&, (yyvsp[-2].expression).value.integer, (yyvsp[0].expression).value.integer);
       }
-#line 5182 "libyara/grammar.c"
+#line 5184 "libyara/grammar.c"
     break;
 
   case 165: /* primary_expression: primary_expression '|' primary_expression  */
-#line 2976 "libyara/grammar.y"
+#line 2978 "libyara/grammar.y"
       {
         check_type((yyvsp[-2].expression), EXPRESSION_TYPE_INTEGER, "|");
         check_type((yyvsp[0].expression), EXPRESSION_TYPE_INTEGER, "|");
@@ -5192,11 +5194,11 @@ yyreduce:
         (yyval.expression).type = EXPRESSION_TYPE_INTEGER;
         (yyval.expression).value.integer = OPERATION(|, (yyvsp[-2].expression).value.integer, (yyvsp[0].expression).value.integer);
       }
-#line 5196 "libyara/grammar.c"
+#line 5198 "libyara/grammar.c"
     break;
 
   case 166: /* primary_expression: '~' primary_expression  */
-#line 2986 "libyara/grammar.y"
+#line 2988 "libyara/grammar.y"
       {
         check_type((yyvsp[0].expression), EXPRESSION_TYPE_INTEGER, "~");
 
@@ -5206,11 +5208,11 @@ yyreduce:
         (yyval.expression).value.integer = ((yyvsp[0].expression).value.integer == YR_UNDEFINED) ?
             YR_UNDEFINED : ~((yyvsp[0].expression).value.integer);
       }
-#line 5210 "libyara/grammar.c"
+#line 5212 "libyara/grammar.c"
     break;
 
   case 167: /* primary_expression: primary_expression "<<" primary_expression  */
-#line 2996 "libyara/grammar.y"
+#line 2998 "libyara/grammar.y"
       {
         int result;
 
@@ -5230,11 +5232,11 @@ yyreduce:
 
         fail_if_error(result);
       }
-#line 5234 "libyara/grammar.c"
+#line 5236 "libyara/grammar.c"
     break;
 
   case 168: /* primary_expression: primary_expression ">>" primary_expression  */
-#line 3016 "libyara/grammar.y"
+#line 3018 "libyara/grammar.y"
       {
         int result;
 
@@ -5254,19 +5256,19 @@ yyreduce:
 
         fail_if_error(result);
       }
-#line 5258 "libyara/grammar.c"
+#line 5260 "libyara/grammar.c"
     break;
 
   case 169: /* primary_expression: regexp  */
-#line 3036 "libyara/grammar.y"
+#line 3038 "libyara/grammar.y"
       {
         (yyval.expression) = (yyvsp[0].expression);
       }
-#line 5266 "libyara/grammar.c"
+#line 5268 "libyara/grammar.c"
     break;
 
 
-#line 5270 "libyara/grammar.c"
+#line 5272 "libyara/grammar.c"
 
       default: break;
     }
@@ -5490,5 +5492,5 @@ yyreturnlab:
   return yyresult;
 }
 
-#line 3041 "libyara/grammar.y"
+#line 3043 "libyara/grammar.y"
 
